@@ -119,6 +119,9 @@ func replayFor(r *PropResult, o *Obligation) *replayTemplate {
 			return replayDecoderEnsures(r, o)
 		}
 	}
+	if sc, ok := scenarioFor(shortName(o.Func)); ok {
+		return &replayTemplate{pkgRel: sc.pkgRel, testName: "TestGvcReplay", src: sc.src, what: sc.what}
+	}
 	if fn, ok := replayRegistry[o.Kind]; ok {
 		return fn(r, o)
 	}
